@@ -33,7 +33,7 @@ pub fn def() -> CheckDef {
         runs_quick: 150_000,
         runs_thorough: 3_000_000,
         rule: "keystream-exhaustion fault: every one of the seven limited stream ciphers (six CTR flavours, BeltCtr) is placed d in 0..6 blocks before its limit at every kind of in-block offset, by seek or by core positioning, and driven across the limit with try_apply_keystream (4 checked forms; lengths 0..(d+2) blocks incl. exactly-at-limit and one-byte-too-long), try_seek around the limit, try_current_pos, remaining_blocks, clone. evaluations = scenarios; fault = a request that does not fit. distinct = distinct (type, block size, cipher, policy, d, offset class, op/outcome sequence); non-trivial = >= 1 request that crosses or touches the limit",
-        required_probes: &["request_ends_exactly_at_limit", "request_one_byte_too_long", "failure_with_half_used_block", "limit_128bit", "limit_belt", "seek_exactly_to_limit", "seek_beyond_limit_rejected", "remaining_some_checked", "placed_by_seek", "placed_by_core"],
+        required_probes: &["request_ends_exactly_at_limit", "request_one_byte_too_long", "failure_with_half_used_block", "limit_128bit", "limit_belt", "seek_exactly_to_limit", "seek_beyond_limit_rejected", "remaining_some_checked", "placed_by_seek", "placed_by_core", "placed_mid_stream"],
         r#gen,
         exec,
         components: "real code: ctr and belt-ctr crates (remaining_blocks, counters) and cipher's StreamCipherCoreWrapper (check_remaining, try_seek); stub: block cipher in most runs, real ciphers in the rest; the twin for 'following bytes unchanged' is a clone of the real object taken before the failing call",
@@ -69,6 +69,23 @@ fn r#gen(rng: &mut Rng, thorough: bool) -> Scn {
     s.set_num("d", d as u128);
     s.set_num("o", o as u128);
     s.set_num("place", if small { rng.below(2) } else { 1 } as u128);
+    if rng.chance(1, 5) {
+        // mid-stream: far from both ends; every request fits, remaining_blocks must still be exact
+        let l = lim_of(mode);
+        let p: u128 = match rng.below(6) {
+            0 => (1u128 << 32) - 2,
+            1 => (1u128 << 64) - 2,
+            2 => (1u128 << 65) - 2,
+            3 => ((rng.u128() >> 8) << 64) | (u64::MAX - rng.below(8)) as u128,
+            4 => rng.u128() >> rng.below(120),
+            _ => rng.below(1 << 40) as u128,
+        };
+        if p + 64 < l {
+            s.set_num("place", 2);
+            s.set_num("posblk", p);
+            s.set_num("d", 0);
+        }
+    }
     let l = lim_of(mode);
     let nops = 1 + rng.usize(if thorough { 8 } else { 6 });
     let mut rem_bytes = d * bs - o; // what is left, tracked roughly for biasing
@@ -128,11 +145,13 @@ impl Track {
 
 fn place(scn: &Scn, tag: u8, l: u128, ctx: &mut Ctx) -> Result<Box<dyn StreamObj>, Verdict> {
     let bs = scn.bs;
-    let d = scn.num("d");
+    let mid = scn.num("place") == 2;
+    let d = if mid { l - scn.num("posblk").min(l) } else { scn.num("d") };
     let o = scn.num("o") as usize;
-    if d > 64 || o >= bs || (d == 0 && o != 0) {
+    if (!mid && d > 64) || o >= bs || (d == 0 && o != 0) {
         return Err(Verdict::Invalid("placement".into()));
     }
+    ctx.probe_if(mid, "placed_mid_stream");
     let small = flavor_of(&scn.mode).map(|f| f.bits < 128).unwrap_or(false);
     if scn.num("place") == 0 && small {
         let mut w = make_stream(&scn.mode, bs, scn.cipher, &scn.key, &scn.iv, tag, 0).map_err(|e| match e {
@@ -182,7 +201,8 @@ fn exec(scn: &Scn, ctx: &mut Ctx) -> Verdict {
         Ok(w) => w,
         Err(v) => return v,
     };
-    let mut t = Track { nb: l - scn.num("d"), off: scn.num("o") as usize };
+    let d0 = if scn.num("place") == 2 { l - scn.num("posblk").min(l) } else { scn.num("d") };
+    let mut t = Track { nb: l - d0, off: scn.num("o") as usize };
     // seam: cipher input -> block index must be a function
     let mut seen: HashMap<Vec<u8>, u128> = HashMap::new();
     {
@@ -212,7 +232,7 @@ fn exec(scn: &Scn, ctx: &mut Ctx) -> Verdict {
                 let fits = n as u128 <= left;
                 ctx.sig.u((form as u64) << 20 | (fits as u64) << 16 | ((n as u128 == left) as u64) << 15 | (t.off != 0) as u64);
                 ctx.probe_if(n as u128 == left && n > 0, "request_ends_exactly_at_limit");
-                ctx.probe_if(n as u128 == left + 1, "request_one_byte_too_long");
+                ctx.probe_if(Some(n as u128) == left.checked_add(1), "request_one_byte_too_long");
                 ctx.probe_if(!fits && t.off != 0, "failure_with_half_used_block");
                 ctx.nontrivial |= n as u128 + bsu > left;
                 let inp = scn.bytes(off_data, n);
@@ -258,7 +278,7 @@ fn exec(scn: &Scn, ctx: &mut Ctx) -> Verdict {
                         }
                         if let Some(mut tw) = twin {
                             // the following bytes are the ones the untouched twin produces
-                            let m = (left.min(bsu + 3)) as usize;
+                            let m = left.min(bsu + 3) as usize;
                             let z = scn.bytes(off_data + 5, m);
                             let (mut a, mut b) = (vec![0u8; m], vec![0u8; m]);
                             let mut wc = w.dup().unwrap();
